@@ -62,7 +62,7 @@ func init() {
 		"internal/stringslite.Cut":         inCut,
 
 		"fmt.Errorf":   inErrorf,
-		"fmt.Sprintf":  inOpaqueString,
+		"fmt.Sprintf":  inSprintf,
 		"fmt.Sprint":   inOpaqueString,
 		"fmt.Sprintln": inOpaqueString,
 		"fmt.Printf":   inNoop,
@@ -108,6 +108,64 @@ func inNoop(c *Ctx, st *State, fn *ssa.Function, args []Value) (*State, Value) {
 
 func inOpaqueString(c *Ctx, st *State, fn *ssa.Function, args []Value) (*State, Value) {
 	return st, c.opaqueStr(fn.Name())
+}
+
+// fmt.Sprintf with a concrete format and only concrete values of basic (unnamed) types is computed for real;
+// anything else is opaque text.
+func inSprintf(c *Ctx, st *State, fn *ssa.Function, args []Value) (*State, Value) {
+	opaque := c.opaqueStr(fn.Name())
+	fs, ok := args[0].(*Str)
+	if !ok || fs.opaque {
+		return st, opaque
+	}
+	format, ok := strConcrete(fs)
+	if !ok {
+		return st, opaque
+	}
+	var goArgs []any
+	if sl, ok := args[1].(*Slice); ok {
+		for i := 0; i < sl.n; i++ {
+			iv, ok := c.load(st, &Ptr{obj: sl.obj, path: pathAppend(sl.path, sl.off+i)}).(*Iface)
+			if !ok || iv.t == nil {
+				return st, opaque
+			}
+			bt, ok := iv.t.(*types.Basic)
+			if !ok {
+				return st, opaque
+			}
+			switch v := iv.v.(type) {
+			case *Str:
+				if v.opaque {
+					return st, opaque
+				}
+				x, ok := strConcrete(v)
+				if !ok {
+					return st, opaque
+				}
+				goArgs = append(goArgs, x)
+			case *Term:
+				if !v.IsConst() {
+					return st, opaque
+				}
+				switch {
+				case bt.Info()&types.IsBoolean != 0:
+					goArgs = append(goArgs, v.IsTrue())
+				case bt.Info()&types.IsUnsigned != 0:
+					goArgs = append(goArgs, v.val)
+				case bt.Info()&types.IsInteger != 0:
+					sh := uint(64 - v.w)
+					goArgs = append(goArgs, int64(v.val<<sh)>>sh)
+				default:
+					return st, opaque
+				}
+			default:
+				return st, opaque
+			}
+		}
+	} else {
+		return st, opaque
+	}
+	return st, c.concreteStr(fmt.Sprintf(format, goArgs...))
 }
 
 func inOsExit(c *Ctx, st *State, fn *ssa.Function, args []Value) (*State, Value) {
